@@ -124,6 +124,11 @@ Section Machine.
   Hypothesis NDids : NoDup ids.
   Hypothesis Hsk : forall i, In i ids -> w_skipped c s0 i = bad (la (r_tr s0) i).
   Hypothesis Hreg : forall i, In i ids -> tv s0 i <> None.
+  (* the cache entries that matter: those about objects of Qc, a set that contains the wait group.  (The
+     apply-time mutator Puts entries about its sources into the same cache; they carry a UID, and they are
+     about objects whose own wait task is over: outside Qc.) *)
+  Variable Qc : id -> Prop.
+  Hypothesis Qids : forall i, In i ids -> Qc i.
 
   Notation calm := (calm strict mode).
 
@@ -147,7 +152,7 @@ Section Machine.
     W_tv : forall j, tv s j = tv s0 j;
     W_la : forall j, la (r_tr s) j = la (r_tr s0) j;
     W_rl : RL s;
-    W_cache : forall o, In o (r_cache s) -> calm o;
+    W_cache : forall o, In o (r_cache s) -> Qc (s_id o) -> calm o;
     W_ndp : NoDup (w_pending w);
     W_ndf : NoDup (w_failed w);
     W_pin : incl (w_pending w) done;
@@ -165,7 +170,7 @@ Section Machine.
     P_tv : forall j, tv s j = tv s0 j;
     P_la : forall j, la (r_tr s) j = la (r_tr s0) j;
     P_rl : RL s;
-    P_cache : forall o, In o (r_cache s) -> calm o;
+    P_cache : forall o, In o (r_cache s) -> Qc (s_id o) -> calm o;
     P_out : forall j, ~ In j ids -> lw (r_tr s) j = lw (r_tr s0) j;
   }.
 
@@ -173,7 +178,7 @@ Section Machine.
   Proof. intros []. constructor; assumption. Qed.
 
   Lemma WI_init :
-    good strict (r_tr s0) -> RL s0 -> (forall o, In o (r_cache s0) -> calm o) ->
+    good strict (r_tr s0) -> RL s0 -> (forall o, In o (r_cache s0) -> Qc (s_id o) -> calm o) ->
     (forall i, In i ids -> lw (r_tr s0) i = None) -> WI s0 (mkWS [] []) [].
   Proof.
     intros G R C N. constructor; cbn [w_pending w_failed]; auto; try constructor; try (intros x []).
@@ -221,7 +226,7 @@ Section Machine.
   (* items that are no wait event and no result; the table is untouched *)
   Lemma WI_plain s s' w done lt :
     r_tbl s' = r_tbl s -> r_tr s' = lt ++ r_tr s -> Forall plain lt ->
-    (forall o, In o (r_cache s') -> calm o) -> WI s w done -> WI s' w done.
+    (forall o, In o (r_cache s') -> Qc (s_id o) -> calm o) -> WI s w done -> WI s' w done.
   Proof.
     intros ET ETR F C H. destruct H.
     assert (TV : forall j, tv s' j = tv s j) by (intros j; unfold tv; rewrite ET; reflexivity).
@@ -238,7 +243,7 @@ Section Machine.
 
   Lemma WP_plain s s' lt :
     r_tbl s' = r_tbl s -> r_tr s' = lt ++ r_tr s -> Forall plain lt ->
-    (forall o, In o (r_cache s') -> calm o) -> WP s -> WP s'.
+    (forall o, In o (r_cache s') -> Qc (s_id o) -> calm o) -> WP s -> WP s'.
   Proof.
     intros ET ETR F C H. destruct H.
     assert (TV : forall j, tv s' j = tv s j) by (intros j; unfold tv; rewrite ET; reflexivity).
@@ -329,7 +334,8 @@ Section Machine.
     destruct (rm_facts (w_pending w) i (W_ndp _ _ _ H)) as [RP1 RP2].
     destruct (rm_facts (w_failed w) i (W_ndf _ _ _ H)) as [RF1 RF2].
     assert (CG : calm (cache_get (r_cache s) i)).
-    { apply cache_get_P; [exact (W_cache _ _ _ H)|apply calm_default]. }
+    { apply (cache_get_P (fun o => Qc (s_id o) -> calm o)); [exact (W_cache _ _ _ H)|intros _; apply calm_default|].
+      rewrite cache_get_id. apply Qids. exact Hi. }
     destruct (memn i (w_pending w)) eqn:MP.
     - (* pending *)
       apply memn_In in MP.
@@ -452,7 +458,7 @@ Section Machine.
       - unfold s3, s2. destruct (o_status_events (sc_opts sc)); reflexivity.
       - destruct (o_status_events (sc_opts sc)); repeat constructor; try apply plain_ev_status; apply plain_deliv.
       - intros o Ho. unfold s3, s2 in Ho. cbn [set_cache r_cache] in Ho. destruct Ho as [<-|Ho].
-        + apply HD. left. reflexivity.
+        + intros _. apply HD. left. reflexivity.
         + apply (W_cache _ _ _ H). destruct (o_status_events (sc_opts sc)); exact Ho.
       - exact H. }
     assert (HT : forall d0, In d0 t -> calm d0) by (intros d0 Hd0; apply HD; right; exact Hd0).
@@ -509,7 +515,7 @@ Section Machine.
   Hypothesis Hdel : forall k d, In d (w_deliv (nth k (e_waits (sc_env sc)) (mkW [] WTimeout))) -> calm d.
 
   Theorem wp_wait_task :
-    good strict (r_tr s0) -> RL s0 -> (forall o, In o (r_cache s0) -> calm o) ->
+    good strict (r_tr s0) -> RL s0 -> (forall o, In o (r_cache s0) -> Qc (s_id o) -> calm o) ->
     (forall i, In i ids -> lw (r_tr s0) i = None) ->
     WP (wait_task sc c g ids s0).
   Proof.
